@@ -252,7 +252,7 @@ fn hand_shaped(ctx: &mut Ctx) {
 /// the stack at return, code after return). Judged by M; sequences that pop an empty operand stack, name
 /// a label they do not define, define a label twice or do not finish within 2 000 steps are outside "conforming" and are skipped.
 fn instruction_sequences(ctx: &mut Ctx) {
-    let k = if ctx.quick() { 4 } else { 6 };
+    let k = if ctx.quick() { 4 } else { 5 };
     let s = |x: &str| Const::Str(x.into());
     // 0 main, 1 f, 2 g, 3 A, 4 B, 5 <~>, 6 +, 7 1, 8 null, 9 false, 10 x, 11 ==, 12 h, 13 slot g, 14 method h
     let prefix = vec![s("main"), s("f"), s("g"), s("A"), s("B"), s("<~>"), s("+"), Const::Int(1), Const::Null, Const::Bool(false), s("x"), s("=="), s("h"), Const::Slot(2),
